@@ -298,6 +298,10 @@ def range_tasks(tier):
         ("apply", ["and"], ["and", ["forall", ["?z", "-", "object"], ["when", ["ob", "?z"], ["not", ["ob", "?z"]]]], ["r"]]),
         ("apply", ["and"], ["and", ["forall", ["?z", "-", "t4"], ["when", ["not", ["p", "?z"]], ["p", "?z"]]]]),
         ("applicable", ["and", ["forall", ["?z", "-", "t2"], ["and", ["s", "?z"]]]], ["and"]),
+        # the quantifier below a nested junction and inside the condition of a conditional effect
+        ("applicable", ["and", ["or", ["r"], ["forall", ["?z", "-", "t1"], ["and", ["p", "?z"]]]]], ["and"]),
+        ("applicable", ["and", ["or", ["not", ["p", "?x"]], ["forall", ["?z", "-", "t3"], ["or", ["p", "?z"], ["q", "?x", "?z"]]]]], ["and"]),
+        ("apply", ["and"], ["and", ["when", ["forall", ["?z", "-", "t1"], ["or", ["p", "?z"], ["q", "?x", "?z"]]], ["r"]]]),
     ]
     tasks = []
     for mode, pre, eff in progs:
